@@ -245,23 +245,21 @@ def hexInitLoop : List (List Nat) → HexFile → Py HexFile
 def hexInit (data : List Nat) : Py HexFile :=
   hexInitLoop (readlines data) { lines := [], entry := .zero, eip := none }
 
-/-- `HEX.decode` : the `(address, data)` list in file order. -/
-def hexDecodeLoop : List HexLine → Int → Int → List (Int × List Nat)
-  | [], _, _ => []
-  | l :: rest, seg, ela =>
+/-- `HEX.decode` : the `(address, data)` list in file order.  (repair "HEX.decode lets the most recent
+    extension record decide": one running base, set by type 02 to `base·16` and by type 04 to
+    `ela·65536`; the first version kept both and preferred a non-zero linear base.) -/
+def hexDecodeLoop : List HexLine → Int → List (Int × List Nat)
+  | [], _ => []
+  | l :: rest, base =>
     if l.code == 2 then
-      hexDecodeLoop rest (match l.ext with | .base b => b | _ => seg) ela
+      hexDecodeLoop rest (match l.ext with | .base b => b * 16 | _ => base)
     else if l.code == 4 then
-      hexDecodeLoop rest seg (match l.ext with | .ela b => b | _ => ela)
+      hexDecodeLoop rest (match l.ext with | .ela b => b * 65536 | _ => base)
     else if l.code == 0 then
-      let address : Int :=
-        if ela != 0 then ela * 65536 + l.address
-        else if seg != 0 then seg * 16 + l.address
-        else l.address
-      (address, l.data) :: hexDecodeLoop rest seg ela
-    else hexDecodeLoop rest seg ela
+      (base + l.address, l.data) :: hexDecodeLoop rest base
+    else hexDecodeLoop rest base
 
-def hexDecode (ls : List HexLine) : List (Int × List Nat) := hexDecodeLoop ls 0 0
+def hexDecode (ls : List HexLine) : List (Int × List Nat) := hexDecodeLoop ls 0
 
 /-- Reference (Intel HEX specification, rev. A): a type 04 record sets the upper linear base
     address and switches to linear addressing, a type 02 record sets the segment base and switches
@@ -287,9 +285,11 @@ def hexRefLoop : List HexLine → HexMode → List (Int × List Nat)
 
 def hexRefAddrs (ls : List HexLine) : List (Int × List Nat) := hexRefLoop ls .plain
 
-/-- a stream uses only one kind of extension record (the usual case). -/
-def hexNoSeg (ls : List HexLine) : Bool := ls.all (fun l => l.code != 2)
-def hexNoLin (ls : List HexLine) : Bool := ls.all (fun l => l.code != 4)
+/-- the running base of `HEX.decode` that corresponds to a mode of the reference -/
+def HexMode.base : HexMode → Int
+  | .plain => 0
+  | .seg b => b * 16
+  | .lin b => b * 65536
 
 /-! ### printing (`HEXline.pack`) of in-range records -/
 
